@@ -300,7 +300,13 @@ class ConnectionPool(RequestInterface):
             elif (
                 connection.is_idle()
                 and connection not in assigned
-                and len([connection.is_idle() for connection in self._connections])
+                and len(
+                    [
+                        connection
+                        for connection in self._connections
+                        if connection.is_idle()
+                    ]
+                )
                 > self._max_keepalive_connections
             ):
                 # log: "closing idle connection"
